@@ -65,6 +65,10 @@ type c17Case struct {
 	// FreeRD lets P announce one prefix under both RDs (never generated: known finding C17-K1,
 	// the export to a VRF's CE does no best-path choice across RDs); failures get the suffix "-cross-rd"
 	FreeRD bool `json:"free_rd"`
+	// Race: bit i set = operation i+1 is issued without waiting for operation i to settle (they are handled concurrently
+	// by the goroutines of their sessions); Sched steers the yield points
+	Race  uint32 `json:"race"`
+	Sched uint64 `json:"sched"`
 }
 
 const c17NRT = 4
@@ -104,6 +108,10 @@ func drawC17(t *rapid.T) c17Case {
 			op.A = rapid.IntRange(-1, c17NRT-1).Draw(t, l+"rt") // -1 = default membership
 		}
 		c.Ops = append(c.Ops, op)
+	}
+	if rapid.IntRange(0, 1).Draw(t, "racing") == 0 {
+		c.Race = rapid.Uint32().Draw(t, "race")
+		c.Sched = uint64(rapid.IntRange(1, 1<<30).Draw(t, "sched"))
 	}
 	return c
 }
@@ -594,9 +602,16 @@ func runC17(t *testing.T) func(c c17Case, st *verifkit.Stats) *verifkit.Failure 
 				return f
 			}
 			memberOps, filtered := 0, false
+			if simYieldAvailable && c.Sched != 0 {
+				simYieldInstall(c.Sched)
+				defer simYieldInstall(0)
+			}
 			for i, op := range c.Ops {
 				if f := r.apply(op); f != nil {
 					return f
+				}
+				if i < 32 && c.Race&(1<<uint(i)) != 0 && i+1 < len(c.Ops) {
+					continue // the next operation is issued while this one is in flight
 				}
 				if f := r.verify(fmt.Sprintf("after op %d %+v", i, op)); f != nil {
 					return f
